@@ -57,6 +57,7 @@ def main():
     args = sys.argv[1:]
     only = None
     jobs = 3
+    outp = None
     ids = []
     i = 0
     while i < len(args):
@@ -65,6 +66,9 @@ def main():
             i += 2
         elif args[i] == "--jobs":
             jobs = int(args[i + 1])
+            i += 2
+        elif args[i] == "--out":
+            outp = args[i + 1]
             i += 2
         else:
             ids.append(args[i].upper())
@@ -79,12 +83,24 @@ def main():
             work.append((pid, mut))
     shards = max(2, 14 // jobs)
     bad = 0
+    rows = []
     with cf.ThreadPoolExecutor(jobs) as ex:
         for pid, name, res, info in ex.map(lambda w: run_one(w[0], w[1], shards), work):
             print("%-4s %-46s %-22s %s" % (pid, name, res, info), flush=True)
+            rows.append((pid, name, res, info))
             if not res.startswith("OK"):
                 bad += 1
     print("%d variants, %d unexpected" % (len(work), bad))
+    if outp:
+        with open(outp, "w") as f:
+            f.write("# Sensitivity round (tools/sens.py): deliberately broken variants on scratch copies, quick tier\n\n")
+            f.write("`caught` = the check reported a VIOLATION; `quiet` = exit 0; the expectation is in tools/mutants/<ID>.py "
+                    "(`quiet` is expected for variants that do not violate the property).\n\n")
+            f.write("| property | variant | result | first signature reported |\n|---|---|---|---|\n")
+            for pid, name, res, info in rows:
+                sig = info.split(":")[0].strip() if res.endswith("caught") else ""
+                f.write("| %s | %s | %s | %s |\n" % (pid, name, res, sig.replace("|", "/")))
+            f.write("\n%d variants, %d unexpected\n" % (len(rows), bad))
     return 1 if bad else 0
 
 
